@@ -1,6 +1,7 @@
 // ASSUMED CONTRACTS for the request/reply router's environment: anyhow, FromStr for the routing key, Display of the key.
 pub mod anyhow {
     #[verifier::external_body] pub struct Error { _p: u8 }
+    #[verifier::external] impl core::fmt::Debug for Error { fn fmt(&self, f: &mut core::fmt::Formatter<'_>) -> core::fmt::Result { unimplemented!() } }
     #[verifier::external_body] pub fn anyhow_msg(m: &str) -> (r: Error) { unimplemented!() }
 }
 pub type AResult<T, E = anyhow::Error> = core::result::Result<T, E>;
@@ -18,3 +19,9 @@ impl VDisplay for usize { open spec fn display(&self) -> Seq<char> { dec(*self) 
 // str::parse::<K>() followed by `?` into anyhow::Error (the error value is opaque)
 #[verifier::external_body] pub fn str_parse<K: VFromStr>(s: &str) -> (r: core::result::Result<K, anyhow::Error>)
     ensures r is Ok <==> K::parses(s@) is Some, r is Ok ==> r->Ok_0 == K::parses(s@)->Some_0 { unimplemented!() }
+// `.into()` conversions used by the routers: &str -> String (same characters), &str -> Bytes (opaque)
+pub trait VInto<B>: Sized { spec fn into_spec(self) -> B; }
+impl<'a> VInto<String> for &'a str { uninterp spec fn into_spec(self) -> String; }
+pub broadcast axiom fn str_into_string_view(s: &str) ensures (#[trigger] <&str as VInto<String>>::into_spec(s))@ == s@;
+impl<'a> VInto<Bytes> for &'a str { uninterp spec fn into_spec(self) -> Bytes; }
+#[verifier::external_body] pub fn vx_into<A: VInto<B>, B>(a: A) -> (r: B) ensures r == a.into_spec() { unimplemented!() }
